@@ -1,5 +1,11 @@
 """C29 - extending a prepared database is equivalent to preparing the union; the parent is unchanged.
 
+Layer B: spec/ClauseDB.tla models the node table / offset / redirect / copy-on-extend mechanism of clausedb.py; TLC checks
+that every database shows exactly the clauses of itself and its ancestors and that calls compiled in an ancestor reach the
+extension's definition (and finds the nested-extension counterexample in the pre-fix get_node).  Every history TLC explores
+(and deeper seeded random ones) is executed on real ClauseDB objects; what each real database shows is judged by Layer A
+(JudgeClauseDB.tla) and compared with what the model shows.
+
 Histories: prepare a base program, extend() (also nested), add facts / rules / ADs for new and existing predicates
 to the extension, interleave queries on the extension and on its ancestors.  Every query result is judged by
 Semantics.tla on the program that the queried database denotes at that moment (base + additions visible at that level)."""
@@ -7,7 +13,8 @@ import copy
 import json
 import random
 
-from .. import pl, progs, semcheck
+from .. import mc, pl, progs, semcheck, tlc
+from ..tlc import MachineryError
 from . import common
 
 
@@ -36,7 +43,80 @@ def stmt_text(kind, st):
     return progs.render(q)
 
 
+
+def structural(ctx, cov):
+    runs = [("ClauseDBMC", "ClauseDB_small.cfg", True), ("ClauseDBMC", "ClauseDB_export.cfg", True),
+            ("ClauseDBMC", "ClauseDB_oldresolve.cfg", False)]
+    if ctx.tier == "thorough":
+        runs.append(("ClauseDBMC", "ClauseDB_big.cfg", True))
+    R = mc.check_cfgs(runs, nproc=ctx.nproc, timeout=ctx.pick(900, 7200), parallel=2)
+    ok_runs = [cfg for _, cfg, e in runs if e]
+    cov["states"] = sum(R[c]["states"] for c in ok_runs)
+    cov["transitions"] = sum(R[c]["transitions"] for c in ok_runs)
+    cov["model_configs"] = {c: {"states": r["states"], "depth": r["depth"]} for c, r in R.items()}
+    cov["expected_counterexample_found"] = "ClauseDB_oldresolve.cfg (pre-fix get_node: own redirect table only)"
+    H = mc.exported(R["ClauseDB_export.cfg"]["out"])
+    if not H:
+        raise MachineryError("no histories exported by ClauseDB_export.cfg")
+    cases = [{"id": i, "hist": h["hist"], "every": True} for i, h in enumerate(H)]
+    # deeper seeded random histories over the same alphabet (3 predicates, up to 4 databases)
+    rng = random.Random(ctx.seed + 292929)
+    preds = ["p", "q", "r"]
+    for _ in range(ctx.pick(2500, 40000)):
+        hist, parents = [], [0]
+        for k in range(rng.randint(5, 9)):
+            leaves = [d for d in range(1, len(parents) + 1) if d not in parents]
+            x = rng.random()
+            if x < 0.25 and len(parents) < 4:
+                d = rng.randint(1, len(parents))
+                hist.append({"op": "extend", "d": d, "s": "", "body": [], "cid": k + 1})
+                parents.append(d)
+            elif x < 0.55:
+                hist.append({"op": "fact", "d": rng.choice(leaves), "s": rng.choice(preds), "body": [], "cid": k + 1})
+            else:
+                hist.append({"op": "rule", "d": rng.choice(leaves), "s": rng.choice(preds),
+                             "body": [rng.choice(preds) for _ in range(rng.randint(1, 2))], "cid": k + 1})
+        cases.append({"id": len(cases), "hist": hist, "every": True})
+    chunk = 400
+    res = pl.run_jobs([("clausedb_history", {"cases": cases[i:i + chunk]}) for i in range(0, len(cases), chunk)],
+                      nproc=ctx.nproc, timeout=600, chunksize=1)
+    send = []
+    drift = 0
+    for r in res:
+        if r.get("error"):
+            raise MachineryError("clausedb_history failed: %s" % r)
+        for o in r["results"]:
+            ctx.evaluations += 1
+            c = cases[o["id"]]
+            if o.get("crash"):
+                ctx.violation({"clause": "crash", "error": o["error"], "site": o.get("site", ""), "level": "structural"},
+                              "history %s raised %s" % (json.dumps(c["hist"]), o["crash"]), {"hist": c["hist"]})
+                continue
+            send.append({"id": o["id"], "hist": c["hist"], "snaps": o["snaps"]})
+            if o["id"] < len(H):
+                mv = H[o["id"]]["views"]
+                rv = [{v["s"]: v["cids"] for v in db} for db in o["snaps"][-1]["views"]]
+                if any(rv[d].get(s, []) != mv[d][s] for d in range(len(mv)) for s in mv[d]):
+                    drift += 1
+    J = tlc.judge_batch("JudgeClauseDB", send, nproc=ctx.nproc, tag="c29s")
+    for c in send:
+        j = J[c["id"]]
+        if not j["ok"]:
+            ctx.violation({"clause": "database-shows-wrong-clauses" if j["why"] == "view" else "call-reaches-wrong-definition",
+                           "level": "structural"},
+                          "after operation %d database %d shows clauses %s for %s (%s), the clauses added to it and its ancestors are %s\nhistory=%s" % (
+                              j["n"], j["d"], j["got"], j["s"], "through a call node" if j["why"] == "call" else "through find()",
+                              j["want"], json.dumps(c["hist"])), {"hist": c["hist"]})
+    cov["spec_histories_replayed_on_impl"] = len(H)
+    cov["random_histories"] = len(cases) - len(H)
+    cov["traces_validated_against_impl"] = len(send)
+    cov["spec_histories_where_impl_differs_from_model"] = drift
+    ctx.sample({"history": cases[len(H) // 2]["hist"], "real_views_after_last_op": send[len(H) // 2]["snaps"][-1]["views"] if len(send) > len(H) // 2 else None})
+
+
 def run(ctx):
+    cov = {}
+    structural(ctx, cov)
     rng = random.Random(ctx.seed + 2929)
     G = semcheck.gen_programs(ctx.seed * 7919 + 291, ctx.pick(130, 1600), "strat", evidence=False)
     jobs, meta = [], []
@@ -70,6 +150,41 @@ def run(ctx):
                 snap = copy.deepcopy(levels[lv])
                 snap["queries"] = [q]
                 expect.append((len(steps) - 1, snap, lv, len(levels) - 1))
+        jobs.append(("extend_history", {"base_text": progs.render(base), "steps": steps}))
+        meta.append((g, base, steps, expect))
+    # annotated disjunctions as the FIRST statements of nested extensions (their group identifiers are derived from the
+    # size of the database at that moment), queried together with ADs of the ancestors
+    for k in range(ctx.pick(60, 600)):
+        base = progs.empty_program(consts=("c1",))
+        nb = rng.randint(0, 2)
+        for i in range(nb):
+            base["facts"].append({"p": [rng.randint(1, 9), 10], "atom": progs.atom("f%d" % i)})
+        if rng.random() < 0.5:
+            base["ads"].append({"heads": [{"p": [rng.randint(1, 4), 10], "atom": progs.atom("b1")},
+                                          {"p": [rng.randint(1, 4), 10], "atom": progs.atom("b2")}], "body": []})
+        levels = [copy.deepcopy(base)]
+        steps, expect, heads = [], [], (["b1", "b2"] if base["ads"] else [])
+        for lv in range(1, rng.randint(2, 3) + 1):
+            steps.append(["extend"])
+            levels.append(copy.deepcopy(levels[-1]))
+            for j in range(rng.randint(1, 2)):
+                hs = ["a%d_%d_%d" % (lv, j, m) for m in range(rng.randint(2, 3))]
+                ad = {"heads": [{"p": [rng.randint(1, 3), 10], "atom": progs.atom(h)} for h in hs],
+                      "body": [progs.lit(progs.atom("f0"))] if nb and rng.random() < 0.3 else []}
+                steps.append(["add", stmt_text("ads", ad)])
+                levels[-1]["ads"].append(ad)
+                heads = heads + hs
+            # a rule over heads of different ADs (mutually exclusive only if they belong to the same AD)
+            x, y = rng.sample(heads, 2)
+            rule = {"head": progs.atom("t%d" % lv), "body": [progs.lit(progs.atom(x)), progs.lit(progs.atom(y))]}
+            steps.append(["add", stmt_text("rules", rule)])
+            levels[-1]["rules"].append(rule)
+            for qa in ("t%d" % lv, x, y):
+                steps.append(["q", lv, qa])
+                snap = copy.deepcopy(levels[lv])
+                snap["queries"] = [progs.atom(qa)]
+                expect.append((len(steps) - 1, snap, lv, lv))
+        g = {"queries": []}
         jobs.append(("extend_history", {"base_text": progs.render(base), "steps": steps}))
         meta.append((g, base, steps, expect))
     res = pl.run_jobs(jobs, nproc=ctx.nproc, timeout=120)
@@ -106,21 +221,38 @@ def run(ctx):
                 {"base_text": progs.render(base), "steps": steps, "step": si, "snapshot": snap})
     if meta:
         ctx.sample({"base": progs.render(meta[0][1]), "steps": meta[0][2], "recorded": res[0].get("steps")})
-    ctx.write_evidence("exploration", {
-        "evaluations": ctx.evaluations, "distinct_nontrivial": len(nontriv),
-        "rule": "generated programs split into a prepared base and a shuffled sequence of added facts/rules/ADs (new and "
-                "existing predicates), with nested extend() calls and queries interleaved on the extension and on its "
-                "ancestors; every query judged by TLC on the program that database denotes; non-trivial = history with >= 1 "
-                "addition and a judged query",
-        "histories": len(meta), "queries_judged": len(progs_to_judge)},
-        assumptions=["reference: Semantics.tla on the union program (order-free), so 'same as preparing the union from "
-                     "scratch' is implied by both agreeing with the semantics"])
+    cov.update({
+        "evaluations": ctx.evaluations, "distinct_nontrivial": len(nontriv) + cov.get("traces_validated_against_impl", 0),
+        "rule": "(a) every history of ClauseDB.tla with 4 operations (fact / rule with 1-2 calls / extend over 2 predicates, 3 "
+                "databases) and seeded random histories of 5-9 operations over 3 predicates and 4 databases, executed on real "
+                "ClauseDB objects, every database's view judged after every operation; (b) generated programs split into a "
+                "prepared base and a shuffled sequence of added facts/rules/ADs (new and existing predicates), with nested "
+                "extend() calls and queries interleaved on the extension and on its ancestors; every query judged by TLC on "
+                "the program that database denotes; non-trivial = structural history, or semantic history with >= 1 addition "
+                "and a judged query",
+        "histories": len(meta), "queries_judged": len(progs_to_judge), "exhaustive": False})
+    ctx.write_evidence("model_checking", cov,
+                       assumptions=["reference: Semantics.tla on the union program (order-free), so 'same as preparing the union from "
+                                    "scratch' is implied by both agreeing with the semantics",
+                                    "clauses are only added to databases that have not been extended (extend()'s contract)",
+                                    "the structural model is propositional: argument indexing (ClauseIndex) is covered by C13"])
 
 
 def replay(ctx, path):
     with open(path) as f:
         d = json.load(f)
     c = d["case"]
+    if "hist" in c:
+        o = pl.run_local("clausedb_history", cases=[{"id": 0, "hist": c["hist"], "every": True}])["results"][0]
+        print(json.dumps(o)[:3000])
+        ctx.evaluations = 1
+        if not o.get("crash"):
+            j = tlc.judge_batch("JudgeClauseDB", [{"id": 0, "hist": c["hist"], "snaps": o["snaps"]}], nproc=1)[0]
+            print(j)
+            if not j["ok"]:
+                ctx.violation({"clause": "database-shows-wrong-clauses", "level": "structural"}, str(j), c)
+        ctx.write_evidence("exploration", {"evaluations": 1, "distinct_nontrivial": 0, "rule": "replay", "samples": [c["hist"]]})
+        return
     r = pl.run_local("extend_history", base_text=c["base_text"], steps=c["steps"])
     print(json.dumps(r)[:3000])
     ctx.evaluations = 1
